@@ -700,6 +700,28 @@ def check_bigval(d, stats):
     return viol
 
 
+def check_keyscan(d, stats):
+    """keyscan phase: KEYS * while others create and delete keys must list every key that is present
+    throughout the call (the stable keys), only keys that were ever written, none twice."""
+    viol = []
+    txt = (Path(d) / "result.txt").read_text().splitlines()
+    done = [l for l in txt if l.startswith("DONE")]
+    bad = [l for l in txt if l.split(" ")[0] in ("MISSING", "DUPLICATE", "UNKNOWN", "MALFORMED", "EXISTS")]
+    stable = [l for l in txt if l.startswith("STABLE")]
+    m = re.search(r"scans=(\d+) churn_writes=(\d+) violations=(\d+)", done[0]) if done else None
+    if m:
+        stats["ops_total"] += int(m.group(1)) + int(m.group(2))
+        stats["keyscan_scans"] = stats.get("keyscan_scans", 0) + int(m.group(1))
+        stats["phases"].append("keyscan")
+    if bad or (m and int(m.group(3)) > 0):
+        viol.append(dict(kind="keys-reply-incomplete", phase="keyscan",
+                         workload="24 stable keys SET once and never touched (half of them in the last three map shards); 4 writers create and DEL bursts of churn<w>.<i> keys; 3 readers loop KEYS *",
+                         first_violations=bad[:4], violations_total=int(m.group(3)) if m else None,
+                         stable_keys_and_shards=stable[0][7:] if stable else None,
+                         note="a key that exists before, during and after the call is missing from the KEYS reply: every linearizable reading of KEYS lists it (C05_keys_contains_stable)"))
+    return viol
+
+
 def hang_report(phase, d):
     d = Path(d)
     txt = (d / "hang.txt").read_text() if (d / "hang.txt").exists() else ""
